@@ -22,7 +22,7 @@ RULE = ('seeded scenarios with 1-4 inclusive/exclusive conditions x seeded histo
         'seeded inputs under seeded read schedules, with (1) the scanner generated from only the rules the manual declares active in c, all '
         'conditions removed, and (2) the scanner generated from the same rules written inside nested start-condition scopes')
 TIERS = {
-    'quick': {'scenarios': 40, 'plans': 100, 'wall_cap': 600},
+    'quick': {'scenarios': 64, 'plans': 150, 'wall_cap': 600},
     'thorough': {'scenarios': 4000, 'plans': 250, 'wall_cap': 3300},
 }
 COMPONENTS = sb.COMPONENTS
@@ -36,7 +36,7 @@ class P(sb.StreamProp):
     USE_MATCHER = False
 
     def gen_scenario(self, rng):
-        return scenario.gen_scenario(rng, want={'feats': ('conds', 'xconds', 'star'), 'stack': True, 'flavors': ['nr', 'nr', 'r', 'r', 'c99', 'cxx']})
+        return scenario.gen_scenario(rng, want={'feats': ('conds', 'xconds', 'star'), 'stack': True, 'flavors': ['nr', 'nr', 'r', 'r', 'c99', 'c99', 'cxx', 'cxx']})
 
     def gen_plan(self, rng, sc):
         return workload.gen_state_plan(rng, sc)
